@@ -1,7 +1,7 @@
 (* Props/C07.v — property C07: theorems only; each closed by [exact] of a lemma proved elsewhere, followed by
    Print Assumptions. The statements are about every trace admitted by the protocol model (Sim/Proto.v,
    rules with constants regenerated from /repo), at every position of the trace. *)
-From LE Require Import Base Ev World Mon Mon2 Proto Consts GenGuards Config ConfigSpec GenConfig SimBasics SimOwn SimCallbacks SimTheorems GuardFacts Timing Witness.
+From LE Require Import Base Ev World Mon Mon2 Proto Consts GenGuards Config ConfigSpec GenConfig SimBasics SimOwn SimCallbacks SimTheorems GuardFacts Timing Witness Env EnvT SimRefresh SimLease SimLeaseT SimLeaseC SimStable Witness2.
 Open Scope Z_scope.
 
 Theorem C07_lease_never_lapses_under_fast_store :
@@ -27,3 +27,22 @@ Theorem C07_fast_store_never_times_out :
   forall H lat, 0 < H -> 2 * lat + 1 < H -> lat < gen_val_read_timeout H /\ lat < gen_hb_update_timeout H.
 Proof. exact (fun H lat Hp Hl => conj (val_read_tolerates_fast_store H lat Hp Hl) (hb_update_tolerates_fast_store H lat Hp Hl)). Qed.
 Print Assumptions C07_fast_store_never_times_out.
+
+(* one cause of demotion excluded for every trace: in the fast-store environment (EnvT.envC_admits) the heartbeat-failure
+   path never gives up a claim - refresh attempts of a claiming instance succeed, in time (SimLeaseC), and that path acts
+   only after a failed or timed-out attempt of the running term (rule 2080, validated on every real trace; it exposed
+   defect 7e97bac). PARTIAL: the other causes of demotion (validation, watcher, connection, health) are decided by the
+   monitor on the fault-free traces only. *)
+Theorem C07_partial_never_demoted_by_refresh_failure :
+  forall tr, admits base0 tr = true -> envC_admits base0 tr = true ->
+  forall pre te post, tr = pre ++ te :: post -> hb_demotion (brun pre) te = false.
+Proof. exact C07_never_demoted_by_refresh_failure. Qed.
+Print Assumptions C07_partial_never_demoted_by_refresh_failure.
+
+(* the record never lapses or changes owner under a claiming leader (C02's theorem, restated for this property) *)
+Theorem C07_partial_record_stays_with_the_leader :
+  forall tr, admits base0 tr = true -> envC_admits base0 tr = true ->
+  forall pre te post, tr = pre ++ te :: post ->
+    ~ In 201 (mon_C02 (bapply (brun pre) te) te) /\ ~ In 202 (mon_C02 (bapply (brun pre) te) te).
+Proof. exact C02_mutual_exclusion_fast_store_full. Qed.
+Print Assumptions C07_partial_record_stays_with_the_leader.
